@@ -441,9 +441,11 @@ static void run_cmd(int ntok, char **tok) {
          * options: boundary=STR quoted=1 extra=1 (extra part headers) leadcrlf=0 forcemulti=1 lower=1
          *          corrupt=N (flip bit 0 of payload byte N of the response, counted over payload bytes only)
          *          cuts=a,b,c (explicit fragment boundaries in the body stream; overrides frag)
-         *          hdrfrag=1 (each header line in its own call - always the case) stop=N (deliver only N body bytes) */
+         *          hdrfrag=1 (each header line in its own call - always the case) stop=N (deliver only N body bytes)
+         *          partend=1 (fragments end exactly on the last payload byte of every part, as a server that flushes per
+         *          part delivers them) */
         int d = C(1), c = C(2); const char *bpath = A(3); int limit = (int)AI(4); long frag = (long)AI(5);
-        const char *boundary = "zckBOUNDARYzck"; int quoted = 0, extra = 0, leadcrlf = 1, forcemulti = 0, lower = 0; long corrupt = -1, stop = -1;
+        const char *boundary = "zckBOUNDARYzck"; int quoted = 0, extra = 0, leadcrlf = 1, forcemulti = 0, lower = 0, partend = 0; long corrupt = -1, stop = -1;
         char cutsbuf[4096] = "";
         for(int k = 6; k < ntok; k++) {
             if(!strncmp(tok[k], "boundary=", 9)) boundary = tok[k] + 9;
@@ -454,9 +456,10 @@ static void run_cmd(int ntok, char **tok) {
             else if(!strncmp(tok[k], "lower=", 6)) lower = atoi(tok[k] + 6);
             else if(!strncmp(tok[k], "corrupt=", 8)) corrupt = atol(tok[k] + 8);
             else if(!strncmp(tok[k], "stop=", 5)) stop = atol(tok[k] + 5);
+            else if(!strncmp(tok[k], "partend=", 8)) partend = atoi(tok[k] + 8);
             else if(!strncmp(tok[k], "cuts=", 5)) snprintf(cutsbuf, sizeof cutsbuf, "%s", tok[k] + 5);
         }
-        zckDL *dl = dls[d]; zckCtx *z = ctxs[c];
+        zckDL *dl = dls[d]; zckCtx *z = ctxs[c]; int fe0 = shim_fired_err;
         zck_dl_reset(dl);
         zckRange *r = zck_get_missing_range(z, limit);      /* local: fetch may run in several threads at once (C19) */
         ev_begin("fetch"); ev_int("limit", limit);
@@ -485,6 +488,7 @@ static void run_cmd(int ntok, char **tok) {
                 if(got < (ssize_t)len) memset(body + bl + (got < 0 ? 0 : got), 0, len - (got < 0 ? 0 : got));
                 if(corrupt >= payload_seen && corrupt < payload_seen + (long)len) body[bl + (corrupt - payload_seen)] ^= 1;
                 payload_seen += len; bl += len;
+                if(partend && strlen(cutsbuf) < sizeof cutsbuf - 32) { char t_[32]; snprintf(t_, sizeof t_, "%s%zu", cutsbuf[0] ? "," : "", bl); strcat(cutsbuf, t_); }
             }
             if(multi) bl += snprintf(body + bl, cap - bl, "\r\n--%s--\r\n", boundary);
             close(bfd);
@@ -513,7 +517,7 @@ static void run_cmd(int ntok, char **tok) {
             ev_int("ret", 1); ev_int("nranges", nr); ev_int("multi", multi); ev_int("bodylen", (long long)bl); ev_int("hdrok", hret == hcalls);
             ev_int("calls", calls); ev_int("okcalls", okcalls); ev_int("firstfail", firstfail); ev_int("failpos", (long long)failpos); ev_int("delivered", (long long)pos);
             ev_int("err", zck_is_error(z)); ev_valid(z);
-            ev_int("missing", zck_missing_chunks(z)); ev_int("failed", zck_failed_chunks(z));
+            ev_int("missing", zck_missing_chunks(z)); ev_int("failed", zck_failed_chunks(z)); ev_int("firederr", shim_fired_err - fe0);
             ev_end();
             free(body);
             (void)zck_dl_set_range(dl, NULL);
